@@ -719,8 +719,17 @@ class Fuzz:
             num = base_n if kind != 'text' else 4494      # last available text number at NOW: 4499
             target = num + rng.randrange(0, 3)
             others = [target + 1, target - 1]
+            path = f'/dash/live/bbb/{rep}/{{n}}.{ext}?start={START}'
+            prefix_pair = kind != 'text' and rng.random() < 0.3
+            if prefix_pair:
+                code, failures = rng.choice([503, 504]), rng.choice([1, 2, 3])
+                rp['c'].update({'code': code, 'failures': failures, 'prefix_pair': True})
+                # two positions of which one number is, as text, the beginning of the other (1 and 10), in a
+                # static presentation where both exist
+                target, others = rng.choice([(1, [10, 5]), (10, [1, 5])])
+                path = f'/dash/vod/bbb/{rep}/{{n}}.{ext}?x=1'
             spec = f'{opt}={code}%3D{target}'
-            if rng.random() < 0.4:
+            if prefix_pair or rng.random() < 0.4:
                 # a second position under the same code (the counter must not leak between positions)
                 spec += f',{code}%3D{others[0]}'
                 rp['c']['two_positions'] = True
@@ -730,16 +739,24 @@ class Fuzz:
                 # time, and must not use up the count of the later requests that carry failures=N
                 rp['c']['prelude'] = k_pre = rng.randrange(1, 5)
                 for _ in range(k_pre):
-                    url = f'/dash/live/bbb/{rep}/{target}.{ext}?start={START}&{spec}'
+                    url = path.format(n=target) + f'&{spec}'
                     r = self._raw(client, url)
                     res.count('c.prelude_requests')
                     if r.status_code != code:
                         res.violation('injected-media-error-without-failure-count-not-fired',
                                       f'{url} -> {r.status_code}, expected {code} on every request', rp)
             seq = []
-            for step in range(9):
+            script = []
+            if prefix_pair and failures and code >= 500:
+                # the other position fails once, this one runs through its whole failure cycle, then the other
+                # one must still fail exactly `failures` times in all
+                script = [others[0]] + [target] * (failures + 1) + [others[0]] * (failures + 1)
+                res.count('c.prefix_pair_scripts')
+            for step in range(max(9, len(script))):
                 nn = rng.choice([target, target, target, others[1]] + ([others[0]] if rp['c'].get('two_positions') else []))
-                url = f'/dash/live/bbb/{rep}/{nn}.{ext}?start={START}&{spec}{fq}'
+                if step < len(script):
+                    nn = script[step]
+                url = path.format(n=nn) + f'&{spec}{fq}'
                 r = self._raw(client, url)
                 addressed = nn == target or (rp['c'].get('two_positions') and nn == others[0])
                 seq.append((addressed, r.status_code, url, nn))
